@@ -1,6 +1,6 @@
 SPECIFICATION Spec
-CONSTANTS Streams = {1, 3}
-          MaxFrames = 4
+CONSTANTS Streams = {0, 1}
+          MaxFrames = 3
           FragCounts = {1, 2, 3}
           CycleMode = "own_stream_last"
           WithSetup = TRUE
